@@ -208,6 +208,10 @@ def page_ops(chk):
                         af = I.exact_aff(o.st, inner(o.val))
                         want = I.aff_of(o.st, b).add(Aff({('n', 0, 64): 1 << sb}, 0), sign)
                         ok = ok and I.aff_equal(o.st, af, want)
+                        # ... over the integers, not modulo 2^64: a path that returns has established that n * SIZE fits in 64 bits
+                        # (a shift or a wrapping multiplication would drop the high bits of n without any overflow check)
+                        rn = I.rng_of(o.st, I.norm(o.st, BV.sym(64, 'n')))
+                        ok = ok and bool(rn) and max(hi for _, hi in rn) <= (M64 >> sb)
                     chk.ob('exact-result', '%s %s n: a non-panicking path returns the page/frame exactly n pages away' % (tagc, '+' if sign > 0 else '-'), ok, 'paths %r' % (outs,), fn_site(I, fn_))
                 # page - page = address difference / SIZE
                 fn_ = '<%s<S> as core::ops::Sub>::sub' % T
